@@ -794,6 +794,9 @@ class Problem:
         self._maxcv_history = []
         self._x_history = []
 
+        # Set the number of evaluations of the problem.
+        self._n_eval = 0
+
     def __call__(self, x, penalty=0.0):
         """
         Evaluate the objective and nonlinear constraint functions.
@@ -825,6 +828,7 @@ class Problem:
         x_full = self.build_x(x)
         fun_val = self._obj(x_full)
         cub_val, ceq_val = self._nonlinear(x_full)
+        self._n_eval += 1
         maxcv_val = self.maxcv(x, cub_val, ceq_val)
         if self._store_history:
             self._fun_history.append(fun_val)
@@ -972,7 +976,7 @@ class Problem:
         int
             Number of function evaluations.
         """
-        return self._obj.n_eval
+        return self._n_eval
 
     @property
     def fun_name(self):
